@@ -752,10 +752,19 @@ class Saver:
 
                 for chunk in chunks:
                     new_f = self.save(chunk=chunk, chunk_i=chunk_i, executor=executor)
+                    for f in pending:
+                        if f.done():
+                            # Re-raise the exception of a failed write here
+                            f.result()
                     pending = [f for f in pending if not f.done()]
                     if new_f is not None:
                         pending += [new_f]
                     chunk_i += 1
+
+            for f in pending:
+                # Wait for the remaining writes; re-raise the exception of a failed one
+                # before the data is closed as valid
+                f.result(timeout=self.timeout)
 
         except strax.MailboxKilled:
             # Write exception (with close), but exit gracefully.
